@@ -15,12 +15,12 @@ defined by well-founded recursion on the unread input, and the termination proof
 "never loops forever" half of C08 for the lexer.
 
 **Domain.**  The Go lexer reads *runes* (`bufio.Reader.ReadRune`; invalid UTF-8 becomes U+FFFD),
-counts offsets in runes and classifies them with `unicode.IsSpace/IsDigit/IsLetter`.  The model
-reads *bytes* and is exact for ASCII sources (`∀ b ∈ src, b < 0x80`), where rune = byte, rune
-offset = byte offset and the unicode predicates are the ASCII ranges below; the theorems state this
-restriction as a hypothesis.  Non-ASCII sources are out of scope (the model treats bytes ≥ 0x80 as
-"other" characters).  Lines and columns of tokens are not modelled (no property here observes
-them); offsets are.
+counts offsets in runes and classifies them with `unicode.IsSpace/IsDigit/IsLetter`.  The model reads
+*bytes*: on ASCII sources rune = byte and rune offset = byte offset; a source that is not ASCII is lexed
+through its class image `Vore.Unicode.abstractSource` (one byte per rune: ASCII itself, `0x81/0x82/0x83` for a
+non-ASCII letter / digit / space, `0x80` for anything else), see `Vore/Model/Unicode.lean` and
+`lexSource` in `Vore/Model/LexSource.lean`.  Lines and columns of tokens are not modelled (no property
+here observes them); offsets are.
 
 Quirks that are modelled as they are (none is forbidden by C08/C15/C16):
 * a NUL byte behaves like end of input, except that the EOF token then spans one byte;
